@@ -553,13 +553,16 @@ class Function(Value):
     def CreateConstant(
         self, constantType: Type, value: Union[int, float, bool]
     ):
-        result = self.__constants.get(value, None)
+        # 1, 1.0 and True compare (and hash) equal in Python but are different
+        # constants, so the Python type is part of the key
+        key = (type(value), value)
+        result = self.__constants.get(key, None)
         if result:
             return result
 
         cv = ConstantValue(constantType, value)
         self.RegisterValue(cv)
-        self.__constants[value] = cv
+        self.__constants[key] = cv
 
         return cv
 
